@@ -110,6 +110,17 @@ def run(ctx):
     for g, bb, t in raw_sites:
         R, b = lift_site(facts, g, bb)
         sites.append((R, b, R.term(b)))
+    # reads of the APPLICATION's response body (the reader stored in a Response) are not reads of client bytes: how that reader
+    # segments its data is the application's business, not this property's
+    import response_rules as RSP
+    RMOD = RSP.resp_model(facts)
+    def app_body_read(g, bb, t):
+        o = g.origin(t["args"][0])
+        root = facts.fns.get(g.id)
+        return RMOD.reader_f in origin_fields(o) and any(x == ("arg", 1) for x in origin_walk(o)) and root is not None and root.rec.get("impl_self_adt") == RESP
+    skipped = [(g, bb) for g, bb, t in sites if app_body_read(g, bb, t)]
+    sites = [(g, bb, t) for g, bb, t in sites if not app_body_read(g, bb, t)]
+    ctx.counts["C13.1 reads of the application's response body (not client bytes, not judged)"] = len(skipped)
     ctx.floor("C13.1 Read::read call sites", len(sites), 6)
     classes = collections.Counter()
     for g, bb, t in sites:
